@@ -42,7 +42,8 @@ META = {
         "to render_link_anchor before any other outcome. "
         "R2 writer/reader agreement: render_link_anchor stores the marker and URI attributes that ResolveAnchorIds reads, stamps the "
         "line, attaches the node exactly once on every path; the link text is percent-decoded (normalizeLinkText) by the writer or by "
-        "every caller; the reader strips exactly the leading '#', deletes the URI attribute around every refid store, walks all "
+        "every caller; the reader strips exactly the leading '#' ([1:], removeprefix('#'), split('#', 1)[1], partition('#')[2] are accepted; "
+        "lstrip/strip/replace/split-all and other slices are violations), deletes the URI attribute around every refid store, walks all "
         "reference nodes of the whole document, leaves unmarked references alone; both parsers register the transform. "
         "R3 loop-body paths: every path through the resolver's loop body reaches exactly one outcome (refid from the explicit registry, "
         "refid from the slug registry, replacement by a pending_xref that carries target/explicitness/children, or docutils miss = "
@@ -74,7 +75,9 @@ META = {
         "which node a given name resolves to at run time (contents of document.nametypes/nameids/ids and myst_slugs for a concrete "
         "document); what docutils' PropagateTargets does to a '(name)=' target and which nodes it skips; the skip conditions of the "
         "registry loop other than the explicit flag (e.g. the indirect-target branch); the Sphinx post-transform that resolves the "
-        "pending_xref (C12); the numeric value of refnode.line (C04); slug values (C10)"
+        "pending_xref and decides whether its 'target not found' warning is suppressed by nitpick_ignore(_regex) (C12); how parse_directive_text "
+        "merges the additional options of a fence-as-directive (where render_fence turns an attribute id into the directive's name option) with the "
+        "option block (C08); the numeric value of refnode.line (C04); slug values (C10)"
     ),
     "trusted_base": [
         "CPython ast and re._parser",
@@ -643,6 +646,25 @@ def r1_dispatch(corpus: Corpus, rep: Report, tier: str):
                             rep.ok(R1, k, fi.module.site(n), f"[{sl.lower.value}:] == len({sw[1]!r})")
                         else:
                             rep.violation(R1, k, fi.module.site(n), f"`{short(n, 50)}` strips {sl.lower.value} characters after testing the {len(sw[1])}-character prefix {sw[1]!r}: the '#' of <project:#x> is no longer first")
+        for n in fi.local_nodes():
+            if isinstance(n, ast.Assign) and isinstance(n.targets[0], ast.Name) and isinstance(n.value, ast.Call) and isinstance(n.value.func, ast.Attribute) and n.value.func.attr in ("removeprefix", "lstrip", "strip", "replace"):
+                c = n.value
+                if not (c.args and isinstance(c.args[0], ast.Constant) and isinstance(c.args[0].value, str) and c.args[0].value.endswith(":")) or not _derives(fi, c.func.value, _is_href_read):
+                    continue
+                strips += 1
+                pfx = c.args[0].value
+                k = f"{fi.fq}|strip prefix {pfx!r}"
+                if c.func.attr == "removeprefix" and len(c.args) == 1:
+                    rep.ok(R1, k, fi.module.site(n), f"removeprefix({pfx!r})")
+                else:
+                    rep.violation(
+                        R1,
+                        k,
+                        fi.module.site(n),
+                        f"`{short(n, 60)}` does not remove the prefix {pfx!r} but "
+                        + ("every leading character from that set" if c.func.attr in ("lstrip", "strip") else "every occurrence of it")
+                        + ": more than the scheme can be cut off (lstrip('project:') also eats the leading letters of `<project:tips.md#x>`), so the '#' test that follows does not see the text after 'project:'",
+                    )
         if strips == 0:
             rep.error(R1, f"{fi.fq}: the 'project:' prefix strip was not recognised (rewritten in an unknown idiom)")
     rep.expect_min(R1, 12, "dispatch calls in render_link (9) and the two render_link_project implementations")
@@ -1289,22 +1311,46 @@ def r2_attribute_agreement(corpus: Corpus, rep: Report, tier: str):
     val = rs.target_assign.value
     site = rs.m.site(rs.target_assign)
     reads = [x for x in ast.walk(val) if rs._subscript_key(x) == rs.uri_key]
-    verdict = None
+    verdict, why = None, ""
+
+    def const_args(c: ast.Call) -> list | None:
+        if c.keywords or not all(isinstance(a, ast.Constant) for a in c.args):
+            return None
+        return [a.value for a in c.args]
+
     for x in reads:
         par = getattr(x, "_parent", None)
+        gp = getattr(par, "_parent", None)
+        ggp = getattr(gp, "_parent", None)
         if isinstance(par, ast.Subscript) and par.value is x and isinstance(par.slice, ast.Slice):
             sl = par.slice
             ok1 = isinstance(sl.lower, ast.Constant) and sl.lower.value == 1 and sl.upper is None and sl.step is None
-            verdict = "ok" if ok1 else "bad"
-        elif isinstance(par, ast.Attribute) and par.attr in ("removeprefix", "lstrip") and isinstance(getattr(par, "_parent", None), ast.Call):
-            c = par._parent
-            verdict = "ok" if par.attr == "removeprefix" and c.args and isinstance(c.args[0], ast.Constant) and c.args[0].value == "#" else "bad"
+            verdict, why = ("ok", "") if ok1 else ("bad", "the slice does not drop exactly one character")
+        elif isinstance(par, ast.Attribute) and par.value is x and isinstance(gp, ast.Call) and gp.func is par:
+            args = const_args(gp)
+            idx = ggp.slice.value if isinstance(ggp, ast.Subscript) and ggp.value is gp and isinstance(ggp.slice, ast.Constant) else None
+            if par.attr == "removeprefix" and args == ["#"]:
+                verdict = "ok"
+            elif par.attr == "split" and args == ["#", 1] and idx == 1:
+                verdict = "ok"  # '#a#b'.split('#', 1)[1] == 'a#b'
+            elif par.attr == "partition" and args == ["#"] and idx == 2:
+                verdict = "ok"  # ('', '#', 'a#b')
+            elif par.attr in ("lstrip", "strip"):
+                verdict, why = "bad", f".{par.attr}() removes *every* leading '#': a link '##x' to the name '#x' is looked up as 'x'"
+            elif par.attr == "replace":
+                verdict, why = "bad", ".replace() also removes '#' characters inside the name"
+            elif par.attr in ("split", "rsplit", "rpartition", "partition"):
+                verdict, why = "bad", f".{par.attr}({', '.join(map(repr, args or []))}){'[' + repr(idx) + ']' if idx is not None else ''} cuts the name at a later '#' as well"
+            elif par.attr in ("lower", "casefold", "upper", "title", "swapcase"):
+                verdict, why = "bad", "the '#' is not removed"
+            else:
+                verdict = verdict or None
         else:
-            verdict = "bad"
+            verdict, why = "bad", "the '#' is not removed"
     if verdict == "ok":
         rep.ok(R2, k, site, short(val, 40))
     elif verdict == "bad":
-        rep.violation(R2, k, site, f"`{short(rs.target_assign, 60)}`: the writer stores '#name', the registries are keyed by 'name'; the reader must drop exactly one leading character")
+        rep.violation(R2, k, site, f"`{short(rs.target_assign, 60)}`: the writer stores '#name', the registries are keyed by 'name'; the reader must drop exactly one leading character ({why})")
     else:
         rep.error(R2, f"target extraction `{short(rs.target_assign, 60)}` not understood")
 
@@ -1820,7 +1866,7 @@ def _key_kind(f: FunctionInfo, e: ast.expr) -> str:
     calls = [s for lv in levels[:2] for x in lv for s in ast.walk(x) if isinstance(s, ast.Call)]
     for c in calls:
         d = dotted(c.func) or ""
-        if d in _PURE_CALLS or (isinstance(c.func, ast.Attribute) and c.func.attr in ("pop", "get", "attrGet", "items", "strip")):
+        if d in _PURE_CALLS or (isinstance(c.func, ast.Attribute) and c.func.attr in ("pop", "get", "attrGet", "items", "strip", "lstrip", "rstrip", "removeprefix", "removesuffix", "split", "rsplit", "partition", "rpartition")):
             continue
         return "unknown"
     return "raw"
@@ -3033,4 +3079,16 @@ def mutants(corpus: Corpus):
     if gc:
         first_call = sorted(gc, key=lambda n: n.lineno)[0]
         add("c09-rubric-path-skips-heading-target", "C09.R10", base, splice(base.src, first_call, "pass"), "is handed to")
+    # ---- R2: near-synonyms of `[1:]` that are not equivalent -----------------------------------------------------------------
+    if isinstance(v, ast.Subscript):
+        inner = _seg(tr, v.value)
+        add("c09-hash-lstrip", R2, tr, splice(tr.src, v, f'{inner}.lstrip("#")'), "strip exactly")
+        add("c09-hash-split-all", R2, tr, splice(tr.src, v, f'{inner}.split("#")[1]'), "strip exactly")
+        add("c09-hash-replace", R2, tr, splice(tr.src, v, f'{inner}.replace("#", "")'), "strip exactly")
+    # ---- R1: near-synonyms of the guarded prefix slice ----------------------------------------------------------------------------
+    for mid, m_, q in (("docutils", base, "DocutilsRenderer.render_link_project"), ("sphinx", sph, "SphinxRenderer.render_link_project")):
+        g = m_.func(q)
+        asg = find_node(g, lambda n: isinstance(n, ast.Assign) and isinstance(n.value, ast.Subscript) and isinstance(n.value.slice, ast.Slice) and isinstance(n.value.slice.lower, ast.Constant) and n.value.slice.lower.value == 8)
+        if asg is not None:
+            add(f"c09-project-prefix-lstrip-{mid}", R1, m_, splice(m_.src, asg.value, f'{_seg(m_, asg.value.value)}.lstrip("project:")'), "strip prefix")
     return out
